@@ -12,8 +12,11 @@ RULE = ("texts are produced with csv.writer from tables of cell texts (or, famil
         "x source kinds; every pool cell alone and every ordered pair of pool cells in one column; all raw strings to "
         "length 4 (quick) / 6 (thorough). non-trivial = at least one of: jagged record, blank/None cell, numeric "
         "look-alike, cell needing quotes, repeated or odd header name, header-only, header-less, empty input, zero columns")
-ASSUMPTIONS = ["csv.reader is the lexical oracle (records as the csv module defines them); texts csv.reader itself rejects "
-               "(csv.Error) are skipped",
+ASSUMPTIONS = ["the lexical layer is modelled (Serif.CsvLex: csv.reader's state machine with the dialect defaults read_csv leaves "
+               "in place, driven over the lines the file object delivers); on every case the model's records must equal "
+               "csv.reader's on an identical source and the model must reject exactly the texts csv.reader rejects (a "
+               "disagreement is a harness error, not a verdict); how the file object splits a text into lines, NUL characters "
+               "and dialect options read_csv does not pass stay with CPython",
                "Python's str.strip / int() / float() on each cell text are the classification oracle",
                "zero-column inputs (blank header line / blank first line of a header-less file) are compared with the "
                "model (no columns, no rows) and are outside the one-row-per-record claim (CONVENTIONS boundary)",
@@ -326,7 +329,11 @@ def snippet(spec):
 
 KNOWN = {}
 
-LEVEL_TEXT = ("Proof (about the pipeline after csv.reader, for every list of records of every shape, every cell-text type and every "
+LEVEL_TEXT = ("Proof (lexical layer, Serif.CsvLex): for every delimiter other than the quote and CR/LF, every list of records, every field text "
+              "(delimiters, quotes, CR, LF included) and every admissible choice of quoted/bare fields, reading the written text back "
+              "line by line or as a character stream yields exactly the records (lexer_roundtrip, lexer_roundtrip_lines, "
+              "lexer_lines_eq_stream, quoted_field_verbatim, blank_line_is_empty_record, read_written_records). "
+              "Proof (about the pipeline after csv.reader, for every list of records of every shape, every cell-text type and every "
               "instantiation of Python's strip/int()/float()): one column per header cell, names verbatim with repeats kept, "
               "col_0.. names from the first record's width when header-less, every column has one entry per data record and the "
               "table has one row per data record whenever it has a column, cell (r,c) = classification of the c-th text of record r "
@@ -337,6 +344,6 @@ LEVEL_TEXT = ("Proof (about the pipeline after csv.reader, for every list of rec
               "exhaustive small shapes, a pool of numeric look-alikes/blank/quoted/unicode cells, four delimiters, path, "
               "file-object and StringIO inputs, and all raw strings over a 7-character alphabet.")
 LEVEL_NOTE = ("Trusted: Lean kernel; axioms propext/Classical.choice/Quot.sound only; the harness (interning of values by (type, repr), "
-              "csv.writer to build texts); csv.reader as lexical oracle and Python's strip/int/float as per-cell oracle (parameters of "
-              "the model). Zero-column inputs are outside the one-row-per-record claim. The theorems are about the Lean model; the tie "
+              "csv.writer to build texts); the file object's line splitting and Python's strip/int/float as per-cell oracle (parameters of "
+              "the model); csv.reader itself is modelled (Serif.CsvLex) and compared with the real csv.reader on every case. Zero-column inputs are outside the one-row-per-record claim. The theorems are about the Lean model; the tie "
               "to csv.py is the differential run.")
